@@ -262,6 +262,16 @@ class Gen:
         else:
           self.emit("    return %s" % self.expr(1))
         methods.append((m, "inst"))
+    if r.random() < 0.25:
+      # an instance attribute that only a method assigns (not __init__)
+      la = self.fresh("l")
+      m = self.fresh("m")
+      self.emit("  def %s(self):" % m)
+      self.emit("    self.%s = %s" % (la, self.expr(1)))
+      if r.random() < 0.5:
+        self.emit("    return self.%s" % la)
+      attrs.append(la)
+      methods.append((m, "inst"))
     new_nested = None
     if r.random() < 0.25:
       inner = self.fresh("N")
